@@ -32,12 +32,17 @@ LEVEL = "fault_enumeration"
 RUNS = {"quick": 8000, "thorough": 120000}
 BUDGET_S = {"quick": 90, "thorough": 1500}
 EXHAUSTIVE = {"quick": False, "thorough": False}
+PAIRS_PER_CHART = {"quick": 16, "thorough": 120}  # ordered pairs of faults, sampled above this
 RULE = ("each run takes one seeded well-formed chart and enumerates every single corruption of "
-        "its sync data at every position (kind x position); each evaluation is one corrupted file "
-        "parsed once plus the probing queries. Distinct = distinct (chart, corruption) digest; "
+        "its sync data at every position (kind x position) plus ordered PAIRS of such corruptions "
+        "(all of them up to a per-chart cap, a seeded sample above it); each evaluation is one "
+        "corrupted file parsed once plus the probing queries; the expected verdict of every file "
+        "is computed from the stored sync body by the trust-rule predicate. Distinct = distinct (chart, corruption) digest; "
         "non-trivial = the corruption changed the stored bytes (all enumerated ones do) ")
 ASSUMPTIONS = [
-    "exhaustive over (corruption kind x position) per chart; charts themselves are seeded samples",
+    "exhaustive over (corruption kind x position) per chart for single faults; ordered pairs of "
+    "faults are enumerated up to a per-chart cap and sampled above it; charts themselves are "
+    "seeded samples",
     "the sync trust rule (five rejection conditions + zero-tempo governing rule) is the harness' "
     "executable reading of the property statement",
     "a tick-0 signature that exists but is not first in the file is treated as unspecified",
@@ -54,7 +59,14 @@ def make_plan(seed: int, tier: str, index: int) -> dict[str, Any]:
         # a trailing tempo event that governs nothing (so that "zero tempo, unused" occurs)
         far = max_tick(doc) + g.choice([1, 10, doc["resolution"], 5000])
         doc["tempos"].append([far, g.choice(gen.BPM_POOL)])
-    return {"property": PROP, "seed": seed, "doc": doc, "corruptions": enumerate_corruptions(doc)}
+    singles = enumerate_corruptions(doc)
+    f = rng.stream(seed, "fault")
+    real = [c for c in singles if c["kind"] != "none"]
+    pairs = [{"kind": "pair", "steps": [a, b]} for a, b in itertools.permutations(real, 2)]
+    cap = PAIRS_PER_CHART[tier]
+    if len(pairs) > cap:
+        pairs = [pairs[i] for i in sorted(f.sample(range(len(pairs)), cap))]
+    return {"property": PROP, "seed": seed, "doc": doc, "corruptions": singles + pairs}
 
 
 def governed_ticks(doc: dict[str, Any]) -> list[int]:
@@ -105,55 +117,112 @@ def enumerate_corruptions(doc: dict[str, Any]) -> list[dict[str, Any]]:
     return out
 
 
-def apply_corruption(doc: dict[str, Any], c: dict[str, Any]) -> tuple[str, str, dict[str, Any]]:
-    """-> (text, expected label, info).  Labels: must-raise / must-not-raise / unspecified."""
-    d = copy.deepcopy(doc)
+def _retick(line: str, t: int) -> str:
+    return f"{t} = " + line.split(" = ", 1)[1]
+
+
+def apply_step(sync: list[str], c: dict[str, Any]) -> bool:
+    """Apply one corruption to the sync body in place; False when it does not apply (any more)."""
     k = c["kind"]
-    info: dict[str, Any] = {}
-    label = "must-raise"
-    if k == "none":
-        return gen.render(d), "base", info
-    if k == "res0":
-        d["meta"] = [[a, ("0" if a == "Resolution" else b)] for a, b in d["meta"]]
-        return gen.render(d), label, info
-    sync = gen.sync_lines(d)
     b_idx = [i for i, ln in enumerate(sync) if " = B " in ln]
     ts_idx = [i for i, ln in enumerate(sync) if " = TS " in ln]
-
-    def retick(line: str, t: int) -> str:
-        return f"{t} = " + line.split(" = ", 1)[1]
-
     if k == "drop_tempo0":
+        if not b_idx:
+            return False
         del sync[b_idx[0]]
     elif k == "shift_tempo0":
-        sync[b_idx[0]] = retick(sync[b_idx[0]], c["to"])
+        if not b_idx:
+            return False
+        sync[b_idx[0]] = _retick(sync[b_idx[0]], c["to"])
     elif k == "drop_ts0":
+        if not ts_idx:
+            return False
         del sync[ts_idx[0]]
     elif k == "shift_ts0":
-        sync[ts_idx[0]] = retick(sync[ts_idx[0]], c["to"])
+        if not ts_idx:
+            return False
+        sync[ts_idx[0]] = _retick(sync[ts_idx[0]], c["to"])
     elif k == "move_ts0_behind":
+        if c["j"] >= len(ts_idx):
+            return False
         line = sync[ts_idx[0]]
         tgt = ts_idx[c["j"]]
         sync.insert(tgt + 1, line)
         del sync[ts_idx[0]]
-        label = "unspecified"
     elif k == "dup_tempo_tick":
+        if c["k"] >= len(b_idx):
+            return False
         prev_tick = int(sync[b_idx[c["k"] - 1]].split(" = ")[0])
-        sync[b_idx[c["k"]]] = retick(sync[b_idx[c["k"]]], prev_tick)
+        sync[b_idx[c["k"]]] = _retick(sync[b_idx[c["k"]]], prev_tick)
     elif k == "swap_tempo":
+        if c["j"] >= len(b_idx):
+            return False
         a, b = b_idx[c["i"]], b_idx[c["j"]]
         sync[a], sync[b] = sync[b], sync[a]
     elif k == "zero_tempo":
-        kk = c["k"]
-        tick = int(sync[b_idx[kk]].split(" = ")[0])
-        sync[b_idx[kk]] = f"{tick} = B 0"
-        tempo_ticks = [t for t, _ in d["tempos"]]
-        governed = [t for t in governed_ticks(d) if governing_index(tempo_ticks, t) == kk]
-        uses = bool(governed) or kk + 1 < len(tempo_ticks)
-        label = "must-raise" if uses else "may-parse"
-        info = {"zero_k": kk, "zero_from": tick}
+        if c["k"] >= len(b_idx):
+            return False
+        tick = int(sync[b_idx[c["k"]]].split(" = ")[0])
+        sync[b_idx[c["k"]]] = f"{tick} = B 0"
     else:
         raise ValueError(k)
+    return True
+
+
+def classify(doc: dict[str, Any], sync: list[str], res0: bool) -> tuple[str, dict[str, Any]]:
+    """The sync trust rule as a predicate on the stored sync body (whatever faults produced it).
+
+    must-raise : resolution 0; tempo ticks (file order) empty / not starting at 0 / not strictly
+                 increasing; no time signature at tick 0; a zero tempo that governs an event, a
+                 note end or a later tempo event
+    unspecified: a tick-0 signature exists but is not the first signature line
+    may-parse  : a zero tempo that governs nothing
+    ok         : none of the above (the map is trustworthy; nothing is demanded either way)"""
+    if res0:
+        return "must-raise", {}
+    tempos = []
+    for ln in sync:
+        if " = B " in ln:
+            a, b = ln.strip().split(" = B ")
+            tempos.append((int(a), int(b)))
+    ts_ticks = [int(ln.strip().split(" = ")[0]) for ln in sync if " = TS " in ln]
+    tt = [t for t, _ in tempos]
+    if not tt or tt[0] != 0 or any(b <= a for a, b in zip(tt, tt[1:])):
+        return "must-raise", {}
+    if 0 not in ts_ticks:
+        return "must-raise", {}
+    label = "ok"
+    info: dict[str, Any] = {}
+    gt = governed_ticks(doc)
+    for k, (tick, bpm) in enumerate(tempos):
+        if bpm == 0:
+            uses = k + 1 < len(tempos) or any(governing_index(tt, t) == k for t in gt)
+            if uses:
+                return "must-raise", {}
+            label = "may-parse"
+            info = {"zero_k": k, "zero_from": tick}
+    if ts_ticks[0] != 0:
+        return "unspecified", info
+    return label, info
+
+
+def apply_corruption(doc: dict[str, Any], c: dict[str, Any]) -> tuple[str, str, dict[str, Any]]:
+    """-> (text, expected label, info).  Labels: base / must-raise / may-parse / unspecified /
+    ok / n-a (a second fault that no longer applies)."""
+    d = copy.deepcopy(doc)
+    if c["kind"] == "none":
+        return gen.render(d), "base", {}
+    steps = c["steps"] if c["kind"] == "pair" else [c]
+    res0 = False
+    sync = gen.sync_lines(d)
+    for st in steps:
+        if st["kind"] == "res0":
+            res0 = True
+        elif not apply_step(sync, st):
+            return "", "n-a", {}
+    if res0:
+        d["meta"] = [[a, ("0" if a == "Resolution" else b)] for a, b in d["meta"]]
+    label, info = classify(d, sync, res0)
     secs = gen.sections(d)
     secs[1][1] = sync
     return gen.render_sections(secs), label, info
@@ -170,7 +239,7 @@ def execute(plan: dict[str, Any]) -> dict[str, Any]:
     violations: list[dict[str, Any]] = []
     fired: dict[str, int] = {}
     counters = {"must_raise": 0, "may_parse": 0, "base": 0, "unspecified": 0, "queries": 0,
-                "may_parse_parsed": 0}
+                "may_parse_parsed": 0, "ok": 0, "n_a": 0, "pairs": 0, "pairs_must_raise": 0}
     nontrivial = []
     base_chart = None
     tempo_ticks = [t for t, _ in doc["tempos"]]
@@ -179,8 +248,16 @@ def execute(plan: dict[str, Any]) -> dict[str, Any]:
     for c in plan["corruptions"]:
         text, label, info = apply_corruption(doc, c)
         kind = c["kind"]
-        fired[kind] = fired.get(kind, 0) + 1
         counters[label.replace("-", "_")] += 1
+        if label == "n-a":
+            continue  # the second fault of a pair no longer applies after the first
+        if kind == "pair":
+            kind = "+".join(st["kind"] for st in c["steps"])
+            fired["pair"] = fired.get("pair", 0) + 1
+            counters["pairs"] += 1
+            counters["pairs_must_raise"] += 1 if label == "must-raise" else 0
+        else:
+            fired[kind] = fired.get(kind, 0) + 1
         if kind != "none":
             nontrivial.append(rng.digest([text]))
         chart = None
@@ -203,7 +280,7 @@ def execute(plan: dict[str, Any]) -> dict[str, Any]:
         elif label == "unspecified":
             if err is not None and not isinstance(err, ValueError):
                 what = type(err).__name__
-        elif err is None:
+        elif label == "may-parse" and err is None:
             counters["may_parse_parsed"] += 1
         if what is not None:
             got = "returned a chart" if err is None else f"raised {exc_token(err)}"
@@ -228,7 +305,7 @@ def execute(plan: dict[str, Any]) -> dict[str, Any]:
             except BaseException as e:  # noqa: BLE001
                 violations.append({"sig": f"C15/{kind}/query-must-raise/{type(e).__name__}",
                                    "detail": f"{fn_name}(-1) raised {exc_token(e)} after corruption {c}"})
-        if kind == "zero_tempo" and base_chart is not None:
+        if label == "may-parse" and "zero_from" in info and base_chart is not None:
             zf = info["zero_from"]
             bbe = base_chart.sync_track.bpm_events
             for t in probe_ticks + [zf, zf + 1, zf + 100000]:
@@ -246,7 +323,7 @@ def execute(plan: dict[str, Any]) -> dict[str, Any]:
                             "detail": f"tempo {info['zero_k']} (tick {zf}) is zero; query for tick {t} "
                                       f"gave {got_ts}"})
                         break
-                else:
+                elif c["kind"] == "zero_tempo":
                     want = us(bbe.timestamp_at_tick_no_optimize_return(t))
                     if got_ts != want:
                         violations.append({"sig": "C15/zero_tempo/other-timestamps-changed/-",
